@@ -501,8 +501,83 @@ func c01Countersign(c *Collector, r *Rng, k realKey, signer cose.Signer, verifie
 				continue
 			}
 			c.Eval(fmt.Sprintf("countersign/abbreviated/%T", par.val), k.alg.String()+hx(sig0), true)
-			if err := cose.VerifyCountersign0(verifier, parentOf(decoded, ptr).val, ext, sig0); err != nil {
-				c.Fail("C01/countersign0-verify", "abbreviated countersignature does not verify: "+err.Error(), rep)
+			for _, vptr := range []bool{ptr, !ptr} { // the parent handed over by pointer or by value: the same parent
+				for _, pv := range []any{built, decoded} {
+					if err := cose.VerifyCountersign0(verifier, parentOf(pv, vptr).val, ext, sig0); err != nil {
+						c.Fail("C01/countersign0-verify", fmt.Sprintf("abbreviated countersignature made over the parent given as %T does not verify against it given as %T: %v", par.val, parentOf(pv, vptr).val, err), rep)
+					}
+				}
+			}
+		}
+	}
+	// several countersignatures by different holders carried by the parent itself (a list under label 11 / 7 in its
+	// unprotected bucket): serialised with the parent, parsed back, each entry verifies against the parsed parent
+	for _, label := range []int64{11, 7} {
+		var list []*cose.Countersignature
+		for e := 0; e < 3; e++ {
+			cs := cose.NewCountersignature()
+			cs.Headers.Protected.SetAlgorithm(k.alg)
+			cs.Headers.Protected[cose.HeaderLabelKeyID] = []byte{byte('a' + e)}
+			if err := cs.Sign(r, signer, built, ext); err != nil {
+				return
+			}
+			list = append(list, cs)
+		}
+		var out []byte
+		var err error
+		switch m := built.(type) {
+		case *cose.Sign1Message:
+			cp := *m
+			cp.Headers.RawUnprotected = nil
+			cp.Headers.Unprotected = cose.UnprotectedHeader{label: list}
+			out, err = cp.MarshalCBOR()
+			if err != nil {
+				return
+			}
+			var back cose.Sign1Message
+			if err := back.UnmarshalCBOR(out); err != nil {
+				c.Fail("C01/sign1-own-output-not-decodable", "a signed message carrying a list of countersignatures cannot be parsed back: "+err.Error(), rep)
+				return
+			}
+			got, _ := back.Headers.Unprotected[label].([]*cose.Countersignature)
+			c.Eval("countersign/list-in-parent/sign1", fmt.Sprint(label, k.alg), true)
+			for e, cs := range got {
+				if err := cs.Verify(verifier, &back, ext); err != nil {
+					c.Fail("C01/countersign-wire", fmt.Sprintf("countersignature %d of %d carried in the parent's unprotected bucket does not verify against the parsed parent: %v", e, len(got), err), rep)
+					break
+				}
+				if e < len(list) && !bytes.Equal(cs.Signature, list[e].Signature) {
+					c.Fail("C01/countersign-wire", fmt.Sprintf("countersignature %d of %d carried in the parent's unprotected bucket comes back as another holder's", e, len(got)), rep)
+					break
+				}
+			}
+			if len(got) != len(list) {
+				c.Fail("C01/countersign-wire", fmt.Sprintf("%d countersignatures were attached, %d came back", len(list), len(got)), rep)
+			}
+		case *cose.SignMessage:
+			cp := *m
+			cp.Headers.RawUnprotected = nil
+			cp.Headers.Unprotected = cose.UnprotectedHeader{label: list}
+			out, err = cp.MarshalCBOR()
+			if err != nil {
+				return
+			}
+			var back cose.SignMessage
+			if err := back.UnmarshalCBOR(out); err != nil {
+				c.Fail("C01/signmsg-own-output-not-decodable", "a signed COSE_Sign carrying a list of countersignatures cannot be parsed back: "+err.Error(), rep)
+				return
+			}
+			got, _ := back.Headers.Unprotected[label].([]*cose.Countersignature)
+			c.Eval("countersign/list-in-parent/signmsg", fmt.Sprint(label, k.alg), true)
+			for e, cs := range got {
+				if err := cs.Verify(verifier, &back, ext); err != nil {
+					c.Fail("C01/countersign-wire", fmt.Sprintf("countersignature %d of %d carried in the COSE_Sign's unprotected bucket does not verify against the parsed parent: %v", e, len(got), err), rep)
+					break
+				}
+				if e < len(list) && !bytes.Equal(cs.Signature, list[e].Signature) {
+					c.Fail("C01/countersign-wire", fmt.Sprintf("countersignature %d of %d carried in the COSE_Sign's unprotected bucket comes back as another holder's", e, len(got)), rep)
+					break
+				}
 			}
 		}
 	}
@@ -892,6 +967,49 @@ func runC07(c *Collector, r *Rng, thorough bool) {
 			}
 		}
 	}
+	// deterministic part: pairs of labels that are different labels although a careless comparison would merge them - n and
+	// -1-n (the same argument under the two integer major types), an integer and the text of its decimal spelling, a
+	// text and the same text with other case - together in one bucket of a conforming message
+	for _, k := range []realKey{keys[0]} {
+		ext := []byte("e")
+		pl := []byte("payload")
+		pairs := [][2]*W{
+			{wInt(4, -1), wInt(-5, -1)}, {wInt(10, -1), wInt(-11, -1)}, {wInt(0, -1), wInt(-1, -1)}, {wInt(23, -1), wInt(-24, -1)}, {wInt(24, -1), wInt(-25, -1)}, {wInt(255, -1), wInt(-256, -1)},
+			{wInt(65535, -1), wInt(-65536, -1)}, {wInt(4, -1), wTstr("4", -1)}, {wInt(10, -1), wTstr("10", -1)}, {wInt(-70001, -1), wTstr("-70001", -1)}, {wInt(256, -1), wTstr("256", -1)},
+			{wTstr("a", -1), wTstr("A", -1)}, {wTstr("4", -1), wTstr("04", -1)}, {wInt(10, -1), wInt(-70010, -1)},
+		}
+		for pi, pr := range pairs {
+			for _, inProtected := range []bool{true, false} {
+				val := func(l *W) *W { // kid (4) is governed: a byte string; everything else is free
+					if l.Maj == 0 && l.Val == 4 {
+						return wBstr([]byte("kid"), -1)
+					}
+					return wTstr("v", -1)
+				}
+				pkv := []*W{wInt(1, -1), wInt(int64(k.alg), -1)}
+				ukv := []*W{}
+				if inProtected {
+					pkv = append(pkv, pr[0].Clone(), val(pr[0]), pr[1].Clone(), val(pr[1]))
+				} else {
+					ukv = append(ukv, pr[0].Clone(), val(pr[0]), pr[1].Clone(), val(pr[1]))
+				}
+				content := wMap(-1, pkv...).Ser()
+				sig := refSign(r, k, refArray(refTstr("Signature1"), refBstr(content), refBstr(ext), refBstr(pl)))
+				data := wTag(18, -1, wArr(-1, wBstr(content, -1), wMap(-1, ukv...), wBstr(pl, -1), wBstr(sig, -1))).Ser()
+				d := decodeCase(c, "conforming/label-pairs/DSign1", "DSign1", data)
+				c.Eval("label-pairs/sign1", fmt.Sprint(pi, inProtected), true)
+				rep := map[string]any{"alg": k.alg.String(), "data": hx(data), "labels": hx(pr[0].Ser()) + " " + hx(pr[1].Ser())}
+				if d.paniced {
+					continue
+				}
+				if d.err != nil {
+					c.Fail("C07/rejected", "conforming message (two different labels in one bucket) refused: "+d.err.Error(), rep)
+				} else if err := d.s1.Verify(ext, k.verifier()); err != nil {
+					c.Fail("C07/verify", "message signed by an independent implementation over its wire bytes does not verify: "+err.Error(), rep)
+				}
+			}
+		}
+	}
 	// deterministic part: alg = int / tstr. A COSE_Sign whose body bucket names an algorithm as text (or as an integer no
 	// key here has) while its signers name theirs; a COSE_Sign1 with a text alg that carries a countersignature: decoded,
 	// the signer / the countersignature verified
@@ -1177,6 +1295,7 @@ func runC07(c *Collector, r *Rng, thorough bool) {
 // of each algorithm shared by 32 goroutines verifying valid messages at once: each verdict is the sequential one.
 func c03AllKeys(c *Collector, r *Rng) {
 	c03MalformedKeys(c, r)
+	c03AlgRemovedAfterSigning(c, r)
 	keys := append([]realKey{}, realKeySet(r)...)
 	// ECDSA keys under the other ES algorithms as well (the library lets any curve sign under any of them: the digest
 	// may be longer or shorter than the curve order)
@@ -1422,6 +1541,62 @@ func c03MalformedKeys(c *Collector, r *Rng) {
 			if !p2 && derr == nil && len(sig) > 0 {
 				c.Fail("C03/verdict", fmt.Sprintf("the built-in verifier returned nil under a public key that is not a key (%s)", b.name), map[string]any{"key": b.name, "alg": b.alg.String(), "signature": hx(sig)})
 				break
+			}
+		}
+	}
+}
+
+// c03AlgRemovedAfterSigning: a structure signed in the ordinary way (alg in its protected bucket, no external data),
+// then the alg entry removed from the in-memory protected map (or the map replaced by an empty / nil one): the value now
+// says nothing about its algorithm and its signature is not a signature over its Sig_structure (the protected bucket
+// is another byte string) - Verify does not return nil, and leaves the header as it found it.
+func c03AlgRemovedAfterSigning(c *Collector, r *Rng) {
+	for _, k := range realKeySet(r) {
+		signer, verifier := k.signer(), k.verifier()
+		for _, how := range []string{"entry deleted", "empty map", "nil map"} {
+			strip := func(h *cose.Headers) {
+				switch how {
+				case "entry deleted":
+					delete(h.Protected, cose.HeaderLabelAlgorithm)
+				case "empty map":
+					h.Protected = cose.ProtectedHeader{}
+				default:
+					h.Protected = nil
+				}
+			}
+			hdr := func() cose.Headers {
+				return cose.Headers{Protected: cose.ProtectedHeader{cose.HeaderLabelAlgorithm: k.alg}, Unprotected: cose.UnprotectedHeader{}}
+			}
+			rep := map[string]any{"key": k.name, "alg": k.alg.String(), "how": how}
+			check := func(name string, h *cose.Headers, verify func() error) {
+				strip(h)
+				before := cOptMap(map[any]any(h.Protected), h.Protected == nil)
+				var err error
+				p, _ := protect(func() { err = verify() })
+				c.Eval("alg-removed-after-signing/"+name, k.name+how, true)
+				if !p && err == nil {
+					c.Fail("C03/verdict", fmt.Sprintf("%s: the alg entry was removed from the protected bucket after signing (no external data): Verify returned nil", name), rep)
+				}
+				if after := cOptMap(map[any]any(h.Protected), h.Protected == nil); after != before {
+					c.Fail("C03/verdict", fmt.Sprintf("%s: Verify rewrote the protected bucket it was asked about: %s before, %s after", name, before, after), rep)
+				}
+			}
+			m := &cose.Sign1Message{Headers: hdr(), Payload: []byte("p")}
+			if m.Sign(r, nil, signer) == nil {
+				check("COSE_Sign1", &m.Headers, func() error { return m.Verify(nil, verifier) })
+			}
+			mu := &cose.UntaggedSign1Message{Headers: hdr(), Payload: []byte("p")}
+			if mu.Sign(r, nil, signer) == nil {
+				check("COSE_Sign1 untagged", &mu.Headers, func() error { return mu.Verify([]byte{}, verifier) })
+			}
+			sm := &cose.SignMessage{Headers: cose.Headers{Protected: cose.ProtectedHeader{}}, Payload: []byte("p"), Signatures: []*cose.Signature{{Headers: hdr()}}}
+			if sm.Sign(r, nil, signer) == nil {
+				check("COSE_Signature", &sm.Signatures[0].Headers, func() error { return sm.Verify(nil, verifier) })
+			}
+			parent := &cose.Sign1Message{Headers: hdr(), Payload: []byte("p"), Signature: []byte{1, 2}}
+			cs := &cose.Countersignature{Headers: hdr()}
+			if cs.Sign(r, signer, parent, nil) == nil {
+				check("COSE_Countersignature", &cs.Headers, func() error { return cs.Verify(verifier, parent, nil) })
 			}
 		}
 	}
